@@ -13,7 +13,7 @@ svars == <<vars, plan>>
 
 SimInit == Init /\ plan = 0
 
-CanMove == quiet /\ wq                         \* a transition is legal in the next cycle
+CanMove == sckq /\ csq /\ wq                  \* any transition is legal in the next cycle
 Changing == \E d \in {0, 1}, w \in WoutAlpha :
                /\ (d # in.sdi \/ w # in.wout)
                /\ Do([in EXCEPT !.sdi = d, !.wout = w])
